@@ -46,10 +46,79 @@ Definition guard_eqb (a b : guard) : bool :=
 Definition guard_on (g : guard) (upload : bool) : bool :=
   match g with GAlways => true | GIfUpload => upload | GIfNotUpload => negb upload end.
 
+(* ---- the ways the discovery probe `pio --version` can fail --------------------- *)
+(* what subprocess.run(["pio","--version"], check=True) raises when PlatformIO is unusable *)
+Inductive pfail :=
+| PNotFound      (* no `pio` on PATH: FileNotFoundError (errno 2) *)
+| PPerm          (* a `pio` without execute permission: PermissionError (errno 13) *)
+| PFormat        (* a `pio` that is no executable format: plain OSError (errno 8) *)
+| PNotDir        (* a PATH component is a file: NotADirectoryError (errno 20) *)
+| PExit.         (* `pio --version` starts and exits non-zero: CalledProcessError *)
+
+Definition all_pfail : list pfail := [PNotFound; PPerm; PFormat; PNotDir; PExit].
+
+Definition pfail_code (f : pfail) : Z :=
+  match f with PNotFound => 0 | PPerm => 1 | PFormat => 2 | PNotDir => 3 | PExit => 4 end.
+
+Inductive kind := ValueError | RuntimeError | CalledProcessError | OSError.
+
+Definition kind_eqb (a b : kind) : bool :=
+  match a, b with
+  | ValueError, ValueError | RuntimeError, RuntimeError
+  | CalledProcessError, CalledProcessError | OSError, OSError => true
+  | _, _ => false
+  end.
+
+(* the exception as subprocess.run raises it, by the four kinds the observer distinguishes *)
+Definition raw_kind (f : pfail) : kind :=
+  match f with PExit => CalledProcessError | _ => OSError end.
+
+(* ---- the except clauses of ensure_pio(), as the translator reads them ---------- *)
+(* exception classes an `except` clause of ensure_pio may name *)
+Inductive hclass :=
+| HBaseException | HException          (* also a bare `except:` *)
+| HOSError                             (* OSError / IOError / EnvironmentError *)
+| HFileNotFound | HPermission | HNotADirectory
+| HSubprocessError | HCalledProcess
+| HUnrelated.                          (* a class none of the probe's exceptions is an instance of *)
+
+(* isinstance(exception raised for f, class) - CPython's built-in hierarchy *)
+Definition catches (c : hclass) (f : pfail) : bool :=
+  match c, f with
+  | HBaseException, _ | HException, _ => true
+  | HOSError, PExit => false
+  | HOSError, _ => true
+  | HFileNotFound, PNotFound => true
+  | HPermission, PPerm => true
+  | HNotADirectory, PNotDir => true
+  | HSubprocessError, PExit | HCalledProcess, PExit => true
+  | _, _ => false
+  end.
+
+(* what the body of a clause does: `raise K(...) [from e]` or a bare `raise` *)
+Inductive haction := ARaise (k : kind) | AReraise.
+
+Definition handler := (list hclass * haction)%type.
+
+(* the exception that leaves ensure_pio() when the probe fails with f: the first clause
+   (in source order) one of whose classes matches decides; no clause: the raw exception *)
+Fixpoint ensure_kind (hs : list handler) (f : pfail) : kind :=
+  match hs with
+  | [] => raw_kind f
+  | (cs, a) :: r =>
+      if existsb (fun c => catches c f) cs
+      then match a with ARaise k => k | AReraise => raw_kind f end
+      else ensure_kind r f
+  end.
+
+(* every discovery failure leaves ensure_pio() as RuntimeError *)
+Definition handlers_wrap (hs : list handler) : bool :=
+  forallb (fun f => kind_eqb (ensure_kind hs f) RuntimeError) all_pfail.
+
 (* ---- the top-level statements of target() ------------------------------------ *)
 Inductive step :=
 | SValidate (pl b : val)                    (* validate_platform_board(pl, b) *)
-| SEnsurePio (g : guard)                    (* ensure_pio() *)
+| SEnsurePio (g : guard) (h : list handler) (* ensure_pio(), with its except clauses *)
 | SReadMain                                 (* src = Path(sys.modules["__main__"].__file__).read_text(...) *)
 | SParse (src : val)                        (* program = parse(src) *)
 | SLibs (prog : val)                        (* required_libs = _collect_required_libraries(program) *)
@@ -73,8 +142,6 @@ Inductive event :=
 | RunBuild (cwd : val)                      (* subprocess.run(["pio","run"], cwd=, check=True) *)
 | RunUpload (cwd : val).                    (* subprocess.run(["pio","run","-t","upload"], cwd=, check=True) *)
 
-Inductive kind := ValueError | RuntimeError | CalledProcessError | OSError.
-
 Inductive result :=
 | Returned (v : val)
 | Raised (k : kind)
@@ -90,12 +157,15 @@ Inductive fpoint :=
 | FWriteMain     (* writing src/main.cpp: OSError *)
 | FWriteIni      (* writing platformio.ini: OSError *)
 | FBuild         (* `pio run` exits non-zero *)
-| FUpload.       (* `pio run -t upload` exits non-zero *)
+| FUpload        (* `pio run -t upload` exits non-zero *)
+| FBuildExec     (* `pio run` cannot be started (pio vanished / not executable): OSError *)
+| FUploadExec.   (* `pio run -t upload` cannot be started: OSError *)
 
 Record env := {
   validf : val -> val -> bool;   (* validate_platform_board accepts the texts these two values denote *)
   upload : bool;                 (* the upload= argument *)
-  pio : bool;                    (* a working `pio` executable is on PATH *)
+  pio : bool;                    (* the probe `pio --version` starts and exits 0 *)
+  pio_how : pfail;               (* how the probe fails when it does (consulted only if pio = false) *)
   fault : fpoint -> bool
 }.
 
@@ -104,10 +174,11 @@ Definition exec_step (e : env) (s : step) : list event * option result :=
   match s with
   | SValidate a b =>
       if validf e a b then ([], None) else ([], Some (Raised ValueError))
-  | SEnsurePio g =>
+  | SEnsurePio g h =>
       if guard_on g (upload e) then
-        (* any failure of `pio --version` (missing executable included) is wrapped *)
-        if pio e then ([RunPioVersion], None) else ([RunPioVersion], Some (Raised RuntimeError))
+        (* a failing probe leaves ensure_pio() as whatever its except clauses make of it *)
+        if pio e then ([RunPioVersion], None)
+        else ([RunPioVersion], Some (Raised (ensure_kind h (pio_how e))))
       else ([], None)
   | SReadMain =>
       if fault e FReadMain then ([ReadMain], Some (Raised OSError)) else ([ReadMain], None)
@@ -127,9 +198,11 @@ Definition exec_step (e : env) (s : step) : list event * option result :=
       else ([Mkdir d; WriteMain c; WriteIni po pl b l], None)
   | SCompileUpload g d =>
       if guard_on g (upload e) then
-        (* without the executable subprocess.run itself raises FileNotFoundError *)
-        if negb (pio e) then ([RunBuild d], Some (Raised OSError))
+        (* no try/except in compile_upload: an executable that cannot be started makes
+           subprocess.run raise an OSError, a non-zero exit (check=True) CalledProcessError *)
+        if fault e FBuildExec then ([RunBuild d], Some (Raised OSError))
         else if fault e FBuild then ([RunBuild d], Some (Raised CalledProcessError))
+        else if fault e FUploadExec then ([RunBuild d; RunUpload d], Some (Raised OSError))
         else if fault e FUpload then ([RunBuild d; RunUpload d], Some (Raised CalledProcessError))
         else ([RunBuild d; RunUpload d], None)
       else ([], None)
@@ -176,7 +249,8 @@ Definition set_built s := {| k_validated := k_validated s; k_pio := k_pio s; k_s
 
 (* [step_ok s x] = Some s' : statement x is admissible after a prefix that established s.
    - validation of exactly (platform, board) comes first, before everything;
-   - ensure_pio comes next and is guarded by `if upload:`;
+   - ensure_pio comes next, is guarded by `if upload:`, and its except clauses turn
+     every failure of the probe (all of [all_pfail]) into RuntimeError;
    - every value is produced once and before it is used; nothing is created on disk
      before parse succeeded; write_project gets exactly tmp, cpp, port, platform,
      board, required_libs; compile_upload(tmp) is guarded by `if upload:` and comes
@@ -186,8 +260,9 @@ Definition step_ok (s : sst) (x : step) : option sst :=
   | SValidate a b =>
       if val_eqb a VPlatform && val_eqb b VBoard && negb (k_validated s) && negb (k_pio s)
       then Some (set_validated s) else None
-  | SEnsurePio g =>
-      if guard_eqb g GIfUpload && k_validated s && negb (k_pio s) then Some (set_pio s) else None
+  | SEnsurePio g h =>
+      if guard_eqb g GIfUpload && handlers_wrap h && k_validated s && negb (k_pio s)
+      then Some (set_pio s) else None
   | SReadMain =>
       if ready s && negb (k_src s) then Some (set_src s) else None
   | SParse v =>
@@ -227,16 +302,29 @@ Fixpoint check (s : sst) (ss : list step) : bool :=
 
 Definition shape_ok (ss : list step) : bool := check st0 ss.
 
+(* `except Exception as e: raise RuntimeError(...) from e` *)
+Definition handlers_pinned : list handler := [([HException], ARaise RuntimeError)].
+
+(* the narrowed clauses `except FileNotFoundError` / `except subprocess.CalledProcessError`,
+   each raising RuntimeError: a pio that cannot be executed escapes as the raw OSError *)
+Definition handlers_narrow : list handler :=
+  [([HFileNotFound], ARaise RuntimeError); ([HCalledProcess], ARaise RuntimeError)].
+
+Definition shape_narrow : list step :=
+  [ SValidate VPlatform VBoard; SEnsurePio GIfUpload handlers_narrow; SReadMain; SParse VSrc; SLibs VProg;
+    SNotice; SEmit VProg; SMkdtemp; SWriteProject VTmp VCpp VPort VPlatform VBoard VLibs;
+    SCompileUpload GIfUpload VTmp; SReturn VCpp ].
+
 (* the shape of target() at the pinned commit bbb6407 (ensure_pio unguarded), kept as a
    literal so that the defect it carries stays stated whatever the current tree says *)
 Definition shape_pinned : list step :=
-  [ SValidate VPlatform VBoard; SEnsurePio GAlways; SReadMain; SParse VSrc; SLibs VProg;
+  [ SValidate VPlatform VBoard; SEnsurePio GAlways handlers_pinned; SReadMain; SParse VSrc; SLibs VProg;
     SNotice; SEmit VProg; SMkdtemp; SWriteProject VTmp VCpp VPort VPlatform VBoard VLibs;
     SCompileUpload GIfUpload VTmp; SReturn VCpp ].
 
 (* and with the one-line repair `if upload: ensure_pio()` *)
 Definition shape_repaired : list step :=
-  [ SValidate VPlatform VBoard; SEnsurePio GIfUpload; SReadMain; SParse VSrc; SLibs VProg;
+  [ SValidate VPlatform VBoard; SEnsurePio GIfUpload handlers_pinned; SReadMain; SParse VSrc; SLibs VProg;
     SNotice; SEmit VProg; SMkdtemp; SWriteProject VTmp VCpp VPort VPlatform VBoard VLibs;
     SCompileUpload GIfUpload VTmp; SReturn VCpp ].
 
@@ -261,12 +349,22 @@ Definition ev_fault (e : env) (ev : event) : option kind :=
   | Mkdir _ => if fault e FMkdir then Some OSError else None
   | WriteMain _ => if fault e FWriteMain then Some OSError else None
   | WriteIni _ _ _ _ => if fault e FWriteIni then Some OSError else None
-  | RunBuild _ => if negb (pio e) then Some OSError
+  | RunBuild _ => if fault e FBuildExec then Some OSError
                   else if fault e FBuild then Some CalledProcessError else None
-  | RunUpload _ => if fault e FUpload then Some CalledProcessError else None
+  | RunUpload _ => if fault e FUploadExec then Some OSError
+                   else if fault e FUpload then Some CalledProcessError else None
   end.
 
 Definition no_fault (e : env) : Prop := forall f, fault e f = false.
+
+(* how a failing build ends the call *)
+Definition build_fault (e : env) : option kind :=
+  if fault e FBuildExec then Some OSError
+  else if fault e FBuild then Some CalledProcessError else None.
+
+(* every ensure_pio() of the list wraps every probe failure (weaker than [shape_ok]) *)
+Definition wraps_all (ss : list step) : bool :=
+  forallb (fun x => match x with SEnsurePio _ h => handlers_wrap h | _ => true end) ss.
 
 (* two worlds that differ at most in whether PlatformIO is installed *)
 Definition same_but_pio (e e' : env) : Prop :=
